@@ -1,0 +1,13 @@
+//go:build verif
+
+// Contracts for package pgo, checked by /verif/gvc (comment-only file).
+
+package pgo
+
+// One side of a patch as a pgo file: the text is augmented (augment.Find / rewrite), parsed with go/parser
+// and the augmentations are mapped back. Summarised: what its callers rely on is that a successful parse
+// yields a new file whose code is present and whose positions belong to a file registered in the file set.
+//@ func Parse(fset, filename, src) (file, err)
+//@   trusted augments the text, parses it with go/parser and maps the augmentations back (go/parser, go/ast traversal): summarised
+//@   requires fset != nil
+//@   ensures err == nil ==> file != nil && fresh(file) && file.Node != nil && file.Node.val != nil && fsFileOf(fset, nodePos(file.Node)) != nil
